@@ -255,9 +255,9 @@ def playback(crate: str, shard: int, item: KItem, timeout=400) -> List[Tuple[str
                                    harness_timeout=timeout, total_timeout=timeout + 600,
                                    extra=['--exact', '-Z', 'concrete-playback', '--concrete-playback=print'])
     out = []
-    for m in re.finditer(r'/// Check for `(\w+)`: "(.*?)"\s*\n\s*\n?#\[test\]\s*\nfn \w+\(\) \{\s*\n\s*let concrete_vals: Vec<Vec<u8>> = vec!\[(.*?)\n\s*\];',
+    for m in re.finditer(r'/// Check for `(\w+)`: ([^\n]*)\n\s*\n?#\[test\]\s*\nfn \w+\(\) \{\s*\n\s*let concrete_vals: Vec<Vec<u8>> = vec!\[(.*?)\n\s*\];',
                          text, re.S):
-        cls, desc, body = m.group(1), m.group(2), m.group(3)
+        cls, desc, body = m.group(1), m.group(2).strip().strip('"'), m.group(3)
         vals = []
         for vm in re.finditer(r'vec!\[([0-9, ]*)\]', body):
             vals.append(bytes(int(x) for x in vm.group(1).replace(' ', '').split(',') if x))
